@@ -54,6 +54,15 @@ def cases(tier):
                         else:
                             if len(iset) > 1 or len(iset[0][0]) >= 2:
                                 yield {'d': d, 'm': m, 'ws': [list(w) for w in ws], 'iset': iset, 'var': var}
+                # representations of the index sets and of max_rank: int32 arrays, boolean masks; NumPy integer max_rank
+                for iset in [[w] for w in W]:
+                    for irep in ('int32', 'mask'):      # (a plain list means a LIST OF index sets, so single sets are always arrays)
+                        yield {'d': d, 'm': m, 'ws': [list(w) for w in ws], 'iset': iset, 'var': 'hosvd', 'thr': 1e-12, 'mr': 'inf', 'fl': [0, 0], 'irep': irep}
+                    for mrt in ('np64', 'np32'):
+                        yield {'d': d, 'm': m, 'ws': [list(w) for w in ws], 'iset': iset, 'var': 'hosvd', 'thr': 1e-6, 'mr': 3, 'fl': [0, 0], 'mrt': mrt}
+                for iset in [[W[0], W[-1]], [W[1], W[0]]]:
+                    yield {'d': d, 'm': m, 'ws': [list(w) for w in ws], 'iset': iset, 'var': 'hosvd', 'thr': 1e-12, 'mr': 'inf', 'fl': [0, 0], 'irep': 'mask'}
+                    yield {'d': d, 'm': m, 'ws': [list(w) for w in ws], 'iset': iset, 'var': 'hocur', 'irep': 'mask'}
                 if d == 1:
                     for iset in [[w] for w in W]:
                         for ws_i in (ws, [(3, 2), (1, 2)], [(4, 3), (3, 2)]):      # also bases whose FIRST mode is non-integer valued
@@ -76,6 +85,16 @@ def run_case(case, seed):
     P = psi_oracle(x, basis).reshape(-1, m)
     iset = case['iset']
     xi = [np.array(a) for a, b in iset]; yi = [np.array(b) for a, b in iset]
+    irep = case.get('irep')
+    if irep == 'list':
+        xi = [list(a) for a, b in iset]; yi = [list(b) for a, b in iset]
+    elif irep == 'int32':
+        xi = [a.astype(np.int32) for a in xi]; yi = [b.astype(np.int32) for b in yi]
+    elif irep == 'mask':                 # the windows are ascending, so a boolean mask selects the same snapshots in the same order
+        def mask(a):
+            mk = np.zeros(m, dtype=bool); mk[np.asarray(a)] = True
+            return mk
+        xi = [mask(a) for a in xi]; yi = [mask(b) for b in yi]
     r.nontrivial = True
     var = case['var']
     key = 'amuset_' + var
@@ -84,6 +103,8 @@ def run_case(case, seed):
         with quiet():
             if var == 'hosvd':
                 mr = np.inf if case['mr'] == 'inf' else case['mr']
+                if case.get('mrt'):
+                    mr = {'np64': np.int64, 'np32': np.int32}[case['mrt']](mr)
                 return tedmd.amuset_hosvd(x, xa, ya, basis, threshold=case['thr'], max_rank=mr, ef_tf=bool(case['fl'][0]), st_tf=bool(case['fl'][1]))
             return tedmd.amuset_hocur(x, xa, ya, basis, max_rank=HOC['ranks'], multiplier=3)
 
@@ -126,7 +147,7 @@ def run_case(case, seed):
                 if meta_problem(et1) is None and ev1.shape == lam.shape:
                     r.close(key + ':batch-equals-single:eigentensors', Xi, dn(et1).reshape(-1, len(ev1)), 1e-10, 'list position %d' % kpos)
             if exact:
-                Px, Py = P[:, xi[kpos]], P[:, yi[kpos]]
+                Px, Py = P[:, np.array(iset[kpos][0])], P[:, np.array(iset[kpos][1])]
                 sv = np.linalg.svd(Px, compute_uv=False); rel = sv / sv[0]
                 if np.any((rel > 1e-4) & (rel < 1e-2)) or np.any((rel > 1e-14) & (rel < 1e-9)):
                     r.skipped += 1
